@@ -451,6 +451,26 @@ def run(chk):
                     witn = witn or "allowCredentials %s: no row tests evalByCredential for emptiness%s" % (label, " together with allowCredentials" if need_empty_allow else "")
             witn = witn or "rows with evalByCredential non-empty and allowCredentials absent / empty are all Err(NotSupportedError)"
         chk.ob("R6 client validation", "R6|authentication|evalByCredential-without-allow-list", okn, where(au or gc), witn)
+        # R4 (client side): the default `eval` travels to the authenticator whether or not evalByCredential is given, so that a
+        # credential without its own entry still gets the default salts
+        if au is not None:
+            okd = True
+            witd = ""
+            n_rows = 0
+            for label, ebc in (("absent", normal.NONE), ("present", normal.some(("sym", "record")))):
+                prf2 = normal.some(normal.abstract(p, PRF, eval=normal.some(("sym", "default-eval")), eval_by_credential=ebc))
+                req = normal.abstract(p, REQ, allow_credentials=normal.some(("sym", "allow")), extensions=normal.some(normal.abstract(p, INP, prf=prf2)))
+                for o in normal.evaluate(S, au, N, {("param", 1): req}):
+                    if o.variant[:2] != ("Ok", "Some"):
+                        continue
+                    n_rows += 1
+                    inp = dict(dict(o.value[3])["0"][3])["0"] if o.value[0] == "agg" else None
+                    pv = dict(inp[3]).get("prf") if isinstance(inp, tuple) and inp and inp[0] == "agg" else None
+                    ev_out = dict(dict(pv[3])["0"][3]).get("eval") if isinstance(pv, tuple) and pv[:3] == ("agg", "core::option::Option", "Some") else None
+                    if not (isinstance(ev_out, tuple) and ev_out[:3] == ("agg", "core::option::Option", "Some") and has(ev_out, lambda x: x == ("sym", "default-eval"))):
+                        okd = False
+                        witd = "evalByCredential %s: a row sends prf = %s — the default eval is not forwarded" % (label, flow.term_str(pv)[:160] if pv else "?")
+            chk.ob("R4 select_salts", "R4|client|default-eval-forwarded", okd and n_rows >= 2, where(au), witd or "%d accepting rows forward the converted default eval (with and without evalByCredential)" % n_rows)
         # SyntaxError ⇔ ∃ key ∈ evalByCredential: key is empty ∨ (allowCredentials present ∧ ¬∃ c ∈ allowCredentials: c.id == key).
         # The per-key predicate is read off either spelling — the closure of `any(..)` that guards the error, or the path
         # condition from the element of a search loop to the error — brought to a boolean/quantifier normal form
@@ -557,7 +577,7 @@ def run(chk):
     chk.floor("R1", 4)
     chk.floor("R2", 5)
     chk.floor("R3", 6)
-    chk.floor("R4", 2)
+    chk.floor("R4", 3)
     chk.floor("R5", 4)
     chk.floor("R6", 8)
     chk.note("observation (not a rule): calculate_hmac_secret computes the second output only when the authenticator supports non-UV credentials; a second input on a UV-only authenticator yields no second result rather than a wrong one")
